@@ -162,7 +162,7 @@ def r1(R):
         if t in env["EXPONENTIALS"]:
             R.check(cs[0].group("type") in "eEgG", "C18.R1", CF, 1, "FORMATS", "strain title %r -> %r" % (t, f),
                     "strain/stress columns (~1e-4) need an exponent format: %r prints zeros" % f)
-    w = m.func("columnfile.writefile")
+    w = m.ifunc("columnfile.writefile", keep=("chkarray",))   # private helpers (row format builder, ...) read as if written here
     rd = m.func("columnfile.readfile")
     ws = str_consts(w)
     # header lines
@@ -183,21 +183,32 @@ def r1(R):
     tr = [a for a in ast.walk(rd) if isinstance(a, ast.Assign) and src(a.targets[0]) == "self.titles" and "split()" in src(a.value)]
     R.check(len(tr) == 1 and "[1:]" in src(tr[0].value), "C18.R1", CF, rd.lineno, "columnfile.readfile", "titles = line[1:].split()", "title parse changed")
     # one conversion per title in both branches of the format builder
-    loops = [n for n in ast.walk(w) if isinstance(n, ast.For) and src(n.iter) == "self.titles"]
-    ok = False
-    if len(loops) == 1:
-        aug = [a for a in ast.walk(loops[0]) if isinstance(a, ast.AugAssign) and src(a.target) == "format_str"]
-        tries = [t for t in ast.walk(loops[0]) if isinstance(t, ast.Try)]
-        fall = [s for s in str_consts(loops[0]) if "%f" in s or "%g" in s or "%e" in s]
-        ok = len(aug) == 2 and len(tries) == 1 and all(len(conversions(x)) == 1 for x in fall) and bool(fall) \
-            and all(("FORMATS[" in src(a.value)) or conversions("".join(str_consts(a.value)))[-1].group("type") in "feg" for a in aug)
+    rowfmt = [c for c in ast.walk(w) if isinstance(c, ast.BinOp) and isinstance(c.op, ast.Mod) and "self.__data" in src(c.right)]
+    R.shape(len(rowfmt) == 1 and isinstance(rowfmt[0].left, ast.Name), "C18.R1", CF, "columnfile.writefile", "the row  <format> % tuple(col[i] for col in self.__data)")
+    fvar = rowfmt[0].left.id
+    fres = pyfacts.resolved(w, rowfmt[0].left, 3, keep=("self",))
+    fnames = {fvar} | {x.id for x in ast.walk(fres) if isinstance(x, ast.Name)}     # the format and the names it is built from
+    loops = [n for n in ast.walk(w) if isinstance(n, ast.For) and src(n.iter) == "self.titles"
+             and any(isinstance(a, ast.AugAssign) and src(a.target) in fnames for a in ast.walk(n))]
+    R.shape(len(loops) == 1, "C18.R1", CF, "columnfile.writefile", "the loop over self.titles that builds the row format")
+    aug = [a for a in ast.walk(loops[0]) if isinstance(a, ast.AugAssign) and src(a.target) in fnames]
+    tries = [t for t in ast.walk(loops[0]) if isinstance(t, ast.Try)]
+    fall = [s_ for s_ in str_consts(loops[0]) if "%f" in s_ or "%g" in s_ or "%e" in s_]
+    R.shape(len(tries) == 1 and len(aug) >= 1, "C18.R1", CF, "columnfile.writefile", "FORMATS[title] with a fallback for unlisted titles (try / except)")
+
+    def one_conv(a):
+        if "FORMATS[" in src(a.value):
+            return True
+        cs_ = conversions("".join(str_consts(a.value)))
+        return len(cs_) == 1 and cs_[-1].group("type") in "feg"
+    ok = len(aug) == 2 and all(one_conv(a) for a in aug)
     R.check(ok, "C18.R1", CF, w.lineno, "columnfile.writefile", "format row: FORMATS[title] or fallback, one conversion per title",
             "the row format no longer has exactly one numeric conversion per title on both the known and unknown title path")
-    rowfmt = [c for c in ast.walk(w) if isinstance(c, ast.BinOp) and isinstance(c.op, ast.Mod) and src(c.left) == "format_str"]
-    R.check(len(rowfmt) == 1 and "for col in self.__data" in src(rowfmt[0].right) and "col[i]" in src(rowfmt[0].right), "C18.R1", CF, w.lineno,
+    R.check("for col in self.__data" in src(rowfmt[0].right) and "col[i]" in src(rowfmt[0].right), "C18.R1", CF, w.lineno,
             "columnfile.writefile", "row i = tuple(col[i] for col in storage)", "a row must take element i of every column in title order")
-    nl = [a for a in ast.walk(w) if isinstance(a, ast.AugAssign) and src(a.target) == "format_str" and src(a.value) in ('"\\n"', "'\\n'")]
-    R.check(len(nl) == 1, "C18.R1", CF, w.lineno, "columnfile.writefile", "row terminated by newline", "rows are not newline terminated")
+    nl = [a for a in ast.walk(w) if isinstance(a, ast.AugAssign) and src(a.target) in fnames and src(a.value) in ('"\\n"', "'\\n'")]
+    tail = isinstance(fres, ast.BinOp) and isinstance(fres.op, ast.Add) and isinstance(fres.right, ast.Constant) and fres.right.value == "\n"
+    R.check(len(nl) == 1 or (not nl and tail), "C18.R1", CF, w.lineno, "columnfile.writefile", "row terminated by newline", "rows are not newline terminated")
     # reader: float per token, by position
     fc = m.func("fillcols")
     R.check("cols[j][i] = float(item)" in ast.unparse(fc) and "line.split()" in ast.unparse(fc), "C18.R1", CF, fc.lineno, "fillcols",
@@ -329,8 +340,8 @@ def r3(R):
     R.check(ok, "C18.R3", PAR, rd.lineno, "parameters.loadparameters", "self.dumbtypecheck() post-dominates the entry",
             "values stay strings on some path: ints/floats do not come back with their types")
     dt = m.func("parameters.dumbtypecheck")
-    u = ast.unparse(dt)
-    R.check("float(value)" in u and "int(value)" in u and ".lstrip().rstrip()" in u or ".strip()" in u, "C18.R3", PAR, dt.lineno, "parameters.dumbtypecheck",
+    u = pyfacts.closure_src(m, dt)   # the coercion may live in a helper of the same module
+    R.check(re.search(r"\bfloat\(", u) and re.search(r"\bint\(", u) and (".lstrip().rstrip()" in u or ".strip()" in u), "C18.R3", PAR, dt.lineno, "parameters.dumbtypecheck",
             "coercion tries float, then int, else stripped string", "type coercion order changed")
     # columnfile.readfile also coerces header parameters
     cm = pyfacts.module(R, CF)
@@ -350,6 +361,91 @@ def writer_tags(fn):
     return out
 
 
+def write_sequence(stmts, fname=None, env=None, conditional=False):
+    """the .write(...) calls of a statement list in execution order, loops over range(<small constant>) / constant tuples unrolled:
+    list of (format string, [argument source with unrolled loop variables substituted], conditional?) - a plain string is a format
+    without arguments.  Statements under if / try are marked conditional; other loops are descended once (one iteration)."""
+    env = env or {}
+    out = []
+
+    def subst(e):
+        class T(ast.NodeTransformer):
+            def visit_Name(self, n):
+                if n.id in env and isinstance(n.ctx, ast.Load):
+                    return ast.copy_location(ast.Constant(value=env[n.id]), n)
+                return n
+        return src(T().visit(pyfacts.clone(e))).replace(" ", "")
+    for st in stmts:
+        if isinstance(st, ast.Expr) and isinstance(st.value, ast.Call) and isinstance(st.value.func, ast.Attribute) and st.value.func.attr == "write" \
+                and len(st.value.args) == 1 and (fname is None or src(st.value.func.value) == fname):
+            a = st.value.args[0]
+            if isinstance(a, ast.Constant) and isinstance(a.value, str):
+                out.append((a.value, [], conditional, st))
+            elif isinstance(a, ast.BinOp) and isinstance(a.op, ast.Mod) and isinstance(a.left, ast.Constant) and isinstance(a.left.value, str):
+                args = a.right.elts if isinstance(a.right, ast.Tuple) else [a.right]
+                out.append((a.left.value, [subst(x) for x in args], conditional, st))
+            else:
+                out.append((None, [subst(a)], conditional, st))
+        elif isinstance(st, ast.For):
+            vals = None
+            it = st.iter
+            if isinstance(st.target, ast.Name):
+                if isinstance(it, ast.Call) and src(it.func) == "range" and all(isinstance(x, ast.Constant) and isinstance(x.value, int) for x in it.args) and 1 <= len(it.args) <= 3:
+                    vals = list(range(*[x.value for x in it.args]))
+                elif isinstance(it, (ast.Tuple, ast.List)) and all(isinstance(x, ast.Constant) for x in it.elts):
+                    vals = [x.value for x in it.elts]
+            if vals is not None and len(vals) <= 16:
+                for v in vals:
+                    out += write_sequence(st.body, fname, dict(env, **{st.target.id: v}), conditional)
+            else:
+                out += write_sequence(st.body, fname, env, conditional)
+        elif isinstance(st, ast.With):
+            out += write_sequence(st.body, fname, env, conditional)
+        elif isinstance(st, ast.If):
+            out += write_sequence(st.body, fname, env, True) + write_sequence(st.orelse, fname, env, True)
+        elif isinstance(st, ast.Try):
+            out += write_sequence(st.body, fname, env, True)
+            for h in st.handlers:
+                out += write_sequence(h.body, fname, env, True)
+            out += write_sequence(st.finalbody, fname, env, conditional)
+    return out
+
+
+
+def ubi_row_reader(fn):
+    """the 3x3 text reader idiom, names free:  vals = [float(x) for x in line.split()];  if len(vals) == 3: ACC gets vals appended;
+    if len(ACC) == 3: <use ACC>; ACC = []   ->  (ok, accumulator name or reason)"""
+    fl = None
+    for a in ast.walk(fn):
+        if isinstance(a, ast.Assign) and len(a.targets) == 1 and isinstance(a.targets[0], ast.Name) and src(a.value).replace(" ", "") == "[float(x)forxinline.split()]":
+            fl = a.targets[0].id
+    if fl is None:
+        return False, "no  <vals> = [float(x) for x in line.split()]"
+    acc = None
+    for i in ast.walk(fn):
+        if isinstance(i, ast.If) and src(i.test).replace(" ", "") == "len(%s)==3" % fl and not i.orelse:
+            for b in i.body:
+                if isinstance(b, ast.Assign) and isinstance(b.targets[0], ast.Name) and src(b.value).replace(" ", "") in (
+                        "%s+[%s]" % (b.targets[0].id, fl), "%s+[%s,]" % (b.targets[0].id, fl)):
+                    acc = b.targets[0].id
+                elif isinstance(b, ast.AugAssign) and isinstance(b.target, ast.Name) and isinstance(b.op, ast.Add) and src(b.value).replace(" ", "") == "[%s]" % fl:
+                    acc = b.target.id
+                elif isinstance(b, ast.Expr) and isinstance(b.value, ast.Call) and isinstance(b.value.func, ast.Attribute) and b.value.func.attr == "append" \
+                        and isinstance(b.value.func.value, ast.Name) and [src(x) for x in b.value.args] == [fl]:
+                    acc = b.value.func.value.id
+    if acc is None:
+        return False, "rows of three floats are not collected under len(%s) == 3" % fl
+    for i in ast.walk(fn):
+        if isinstance(i, ast.If) and src(i.test).replace(" ", "") == "len(%s)==3" % acc:
+            reset = any(isinstance(b, ast.Assign) and src(b.targets[0]) == acc and src(b.value) in ("[]", "list()") for b in i.body)
+            used = any(isinstance(x, ast.Name) and x.id == acc and isinstance(x.ctx, ast.Load) for b in i.body for x in ast.walk(b))
+            if reset and used:
+                return True, acc
+            return False, "the accumulator %s is not consumed and reset after three rows" % acc
+    return False, "no  if len(%s) == 3  block" % acc
+
+
+
 def r4(R):
     R.rule("C18.R4", "grain text files: every tag written is parsed; conversions are inverted (%d<->int, %g/%f<->float, %s<->stripped "
                      "str); 9 UBI numbers with >= 9 significant digits, translation >= 6; per-grain state reset after each grain")
@@ -361,13 +457,38 @@ def r4(R):
     R.check(need <= set(tags), "C18.R4", GR, w.lineno, "write_grain_file", "tags written %s" % sorted(tags), "writer lost one of %s" % sorted(need))
     # UBI precision
     ub = [s for s in str_consts(w) if not s.startswith("#") and len(conversions(s)) == 3]
-    nconv = sum(len(conversions(s)) for s in ub)
-    prec = [sig_digits(c) for s in ub for c in conversions(s)]
+    # each  "<3 conversions>" % (u[a, b], ...)  counts once, or three times when it sits in a  for v in range(3)  loop and uses v
+    rows, prec, nconv = [], [], 0
+    for bo in ast.walk(w):
+        if not (isinstance(bo, ast.BinOp) and isinstance(bo.op, ast.Mod) and isinstance(bo.left, ast.Constant) and bo.left.value in ub and isinstance(bo.right, ast.Tuple)):
+            continue
+        loopvar = None
+        par = getattr(bo, "_parent", None)
+        while par is not None and not isinstance(par, ast.FunctionDef):
+            if isinstance(par, ast.For) and isinstance(par.target, ast.Name) and src(par.iter).replace(" ", "") in ("range(3)", "range(0,3)", "(0,1,2)", "[0,1,2]") \
+                    and any(isinstance(x, ast.Name) and x.id == par.target.id for x in ast.walk(bo.right)):
+                loopvar = par.target.id
+                break
+            par = getattr(par, "_parent", None)
+        for rep in (range(3) if loopvar else [None]):
+            for e in bo.right.elts:
+                if not (isinstance(e, ast.Subscript) and isinstance(e.slice, ast.Tuple) and len(e.slice.elts) == 2):
+                    continue
+                ij = []
+                for x in e.slice.elts:
+                    if isinstance(x, ast.Constant) and isinstance(x.value, int):
+                        ij.append(x.value)
+                    elif isinstance(x, ast.Name) and x.id == loopvar:
+                        ij.append(rep)
+                    else:
+                        ij.append(None)
+                rows.append(tuple(ij))
+            for c in conversions(bo.left.value):
+                prec.append(sig_digits(c))
+                nconv += 1
+    R.shape(nconv > 0, "C18.R4", GR, "write_grain_file", "the '%.9g %.9g %.9g' rows of the UBI")
     R.check(nconv == 9 and all(p is not None and p >= 9 for p in prec), "C18.R4", GR, w.lineno, "write_grain_file", "UBI rows %r" % ub,
             "the UBI must be written as 9 numbers with at least 9 significant digits each (found %d conversions, digits %s)" % (nconv, prec))
-    rows = [(i, j) for s in ast.walk(w) if isinstance(s, ast.BinOp) and isinstance(s.op, ast.Mod) and isinstance(s.left, ast.Constant)
-            and s.left.value in ub and isinstance(s.right, ast.Tuple) for e in s.right.elts
-            for (i, j) in [tuple(int(x) for x in re.findall(r"\d", src(e.slice)))] if isinstance(e, ast.Subscript)]
     R.check(rows == [(i, j) for i in range(3) for j in range(3)], "C18.R4", GR, w.lineno, "write_grain_file", "UBI element order %s" % rows,
             "UBI elements are not written row-major u[0,0]..u[2,2]")
     tr = [s for s in str_consts(w) if s.startswith("#translation")]
@@ -394,15 +515,20 @@ def r4(R):
     # translation parsed with float and split()
     u = ast.unparse(rd)
     R.check("[float(x) for x in line.split()[1:]]" in u, "C18.R4", GR, rd.lineno, "read_grain_file", "translation = floats of the tokens after the tag", "translation parse changed")
-    R.check("[float(x) for x in line.split()]" in u and "len(vals) == 3" in u and "len(u) == 3" in u, "C18.R4", GR, rd.lineno, "read_grain_file",
-            "UBI rows: three floats per line, three lines per grain", "UBI parse changed")
+    okr, accname = ubi_row_reader(rd)
+    R.check(okr, "C18.R4", GR, rd.lineno, "read_grain_file", "UBI rows: three floats per line, three lines per grain", "UBI parse changed: %s" % accname)
     # state reset after each grain
-    app = [n for n in ast.walk(rd) if isinstance(n, ast.If) and "len(u) == 3" in src(n.test)]
+    app = [n for n in ast.walk(rd) if isinstance(n, ast.If) and src(n.test).replace(" ", "") == "len(%s)==3" % accname]
     ok = False
-    if app:
-        body = "\n".join(src(s) for s in app[0].body)
-        ok = "p = {}" in body and "u = []" in body and "t = None" in body
-    R.check(ok, "C18.R4", GR, rd.lineno, "read_grain_file", "p, u, t reset after each grain", "attributes of one grain leak into the next")
+    tvars = [a.targets[0].id for a in ast.walk(rd) if isinstance(a, ast.Assign) and isinstance(a.targets[0], ast.Name)
+             and src(a.value).replace(" ", "") == "[float(x)forxinline.split()[1:]]"]
+    dvars = sorted(set(a.targets[0].value.id for a in ast.walk(rd) if isinstance(a, ast.Assign) and isinstance(a.targets[0], ast.Subscript)
+                       and isinstance(a.targets[0].value, ast.Name) and not isinstance(a.targets[0].slice, ast.Slice)))
+    R.shape(len(tvars) == 1 and len(dvars) == 1 and bool(app), "C18.R4", GR, "read_grain_file", "the per-grain state: translation list, tag dictionary, row accumulator")
+    body = [src(s).replace(" ", "") for s in app[0].body]
+    ok = any(b in ("%s={}" % dvars[0], "%s=dict()" % dvars[0]) for b in body) and any(b in ("%s=[]" % accname, "%s=list()" % accname) for b in body) \
+        and "%s=None" % tvars[0] in body
+    R.check(ok, "C18.R4", GR, rd.lineno, "read_grain_file", "tag dictionary, row accumulator and translation reset after each grain", "attributes of one grain leak into the next")
 
 
 def reader_store_exprs(fn):
@@ -477,15 +603,16 @@ def r6(R):
     m = pyfacts.module(R, IDX)
     w = m.func("write_ubi_file")
     rd = m.func("readubis")
-    rows = [s for s in str_consts(w) if len(conversions(s)) == 3]
-    R.check(len(rows) == 3 and rows[-1].endswith("\n\n") and all(c.group("type") in "feg" for s in rows for c in conversions(s)), "C18.R6", IDX, w.lineno,
-            "write_ubi_file", "row formats %r" % rows, "a ubi record must be three rows of three numeric conversions followed by a blank line")
-    idx = [tuple(int(x) for x in re.findall(r"\d", src(e))) for s in ast.walk(w) if isinstance(s, ast.BinOp) and isinstance(s.op, ast.Mod)
-           and isinstance(s.right, ast.Tuple) for e in s.right.elts]
+    seq = [x for x in write_sequence(w.body) if not x[2]]
+    R.shape(bool(seq) and all(x[0] is not None for x in seq), "C18.R6", IDX, "write_ubi_file", "the sequence of formatted writes of one matrix")
+    text = "".join(x[0] for x in seq)
+    lines = text.split("\n")
+    R.check(len(lines) == 5 and lines[3] == "" and lines[4] == "" and all(len(conversions(l)) == 3 and all(c.group("type") in "feg" for c in conversions(l)) for l in lines[:3]),
+            "C18.R6", IDX, w.lineno, "write_ubi_file", "record format %r" % text, "a ubi record must be three rows of three numeric conversions followed by a blank line")
+    idx = [tuple(int(x) for x in re.findall(r"\d", a)) for x in seq for a in x[1]]
     R.check(idx == [(i, j) for i in range(3) for j in range(3)], "C18.R6", IDX, w.lineno, "write_ubi_file", "element order %s" % idx, "elements not written row-major")
-    u = ast.unparse(rd)
-    R.check("[float(x) for x in line.split()]" in u and "len(vals) == 3" in u and "len(u) == 3" in u and "u = []" in u, "C18.R6", IDX, rd.lineno, "readubis",
-            "3 floats per row, 3 rows per matrix, state reset", "ubi reader changed")
+    okr, accname = ubi_row_reader(rd)
+    R.check(okr, "C18.R6", IDX, rd.lineno, "readubis", "3 floats per row, 3 rows per matrix, state reset", "ubi reader changed: %s" % accname)
 
 
 H5_MAKERS = ("create_dataset", "require_dataset", "create_group", "require_group", "File")
@@ -524,7 +651,28 @@ def r7(R):
     m = pyfacts.module(R, SPF)
     w = m.func("sparse_frame.to_hdf_group")
     rd = m.func("from_hdf_group")
-    uw, ur = ast.unparse(w), ast.unparse(rd)
+    class H5Norm(ast.NodeTransformer):
+        """G.require_dataset(K, ...) / G.create_dataset(K, ...) used as a value is the dataset G[K]"""
+        def visit_Call(self, c):
+            self.generic_visit(c)
+            if isinstance(c.func, ast.Attribute) and c.func.attr in ("require_dataset", "create_dataset") and c.args and getattr(c, "_as_value", False):
+                return ast.Subscript(value=c.func.value, slice=c.args[0], ctx=ast.Load())
+            return c
+
+    def h5text(fn):
+        # dataset handles bound to local names (rowds = group.require_dataset('row', ..); rowds[:] = x) read as group['row'][:] = x
+        defs = pyfacts.unique_defs(fn)
+        grp = fn.args.args[-1].arg if fn.args.args else "group"
+        handles = {n for n, v in defs.items() if (isinstance(v, ast.Call) and isinstance(v.func, ast.Attribute) and v.func.attr in ("require_dataset", "create_dataset"))
+                   or (isinstance(v, ast.Subscript) and isinstance(v.value, ast.Name) and v.value.id == grp)}
+        sizes = {n for n, v in defs.items() if src(v).replace(" ", "") in ("frame.nnz",)}
+        t = pyfacts.resolved(fn, fn, 3, keep=tuple(set(defs) - handles - sizes))
+        for n in ast.walk(t):
+            for c in ast.iter_child_nodes(n):
+                if isinstance(c, ast.Call) and not isinstance(n, ast.Expr):
+                    c._as_value = True
+        return ast.unparse(ast.fix_missing_locations(H5Norm().visit(t)))
+    uw, ur = h5text(w), h5text(rd)
     for a in ("itype", "shape0", "shape1"):
         R.check(("'%s'" % a) in uw and ("group.attrs['%s']" % a) in ur, "C18.R7", SPF, w.lineno, "sparse_frame.to_hdf_group", "attribute %s written and read" % a,
                 "attribute %s is not on both sides" % a)
